@@ -34,6 +34,8 @@ func checkC03(c *Check, a *Anchors) {
 	cancellationPropagates(c, a)
 	sharedOutcomeCallIndependent(c, a)
 	errorBranchExits(c, a, "error-branch-exits")
+	elementLiteralCarriesFields(c, a, "element-literal-carries-fields")
+	c03ParallelFirstError(c, a)
 }
 
 // ssaLabel names a call instruction by its (static or interface) callee object.
@@ -765,4 +767,36 @@ func c03ExitCodeMap(c *Check, a *Anchors) {
 		}
 	}
 	c.Decide(usesStatus && usesCode && callsIsExit, "exit-code-map", "TaskExitCode", tec.Decl.Pos(), "returns the interp exit status when present, else Code()", "TaskExitCode no longer returns the wrapped command's exit status (falls back to Code() otherwise)")
+}
+
+// c03ParallelFirstError: with --parallel the error that ends the invocation is the one the errgroup reports — the first
+// failure in time. The calls that it cancels return a "context canceled" TaskRunError; picking an error by any other order
+// reports one of those instead of the failing command's own (exit code with -x, task name).
+func c03ParallelFirstError(c *Check, a *Anchors) {
+	c.Rule("parallel-first-error", "in Run every return on the error edge of errgroup.Wait yields Wait's own result (directly or the variable holding it): the failure reported for parallel calls is the first one in time, never a sibling's `context canceled` picked by position")
+	fb := a.Run
+	c.Fn(fb)
+	info := fb.Info()
+	f := NewFlow(c.P, fb, a.labelRun(info))
+	f.Run()
+	n := 0
+	for i, r := range f.Returns {
+		st := f.At[r]
+		res := errResult(r)
+		direct := false
+		if call, ok := ast.Unparen(res).(*ast.CallExpr); res != nil && ok && f.Labels[call] == "wait" {
+			direct = true
+		}
+		if !direct && !(st.Has("called:wait") && st.Has("nonnil:wait")) {
+			continue
+		}
+		n++
+		ok := direct
+		if v := varOf(info, res); !ok && v != nil && st.Has(defPrefix(v)+"wait") {
+			ok = true
+		}
+		c.Decide(ok, "parallel-first-error", fmt.Sprintf("return#%d@%s", i+1, fnDisplay(fb)), r.Pos(), "returns errgroup.Wait's result",
+			"after errgroup.Wait reported a failure this return yields "+exprStrOrNone(res)+", not Wait's result: with --parallel the reported error (and the exit code under -x) can be that of a call that was merely cancelled by the real failure")
+	}
+	c.Floor("parallel-first-error", n, 1)
 }
